@@ -78,7 +78,7 @@ def cases(tier, seed, shard, nshards):
     rng = random.Random(f"{seed}:C16:{shard}")
     n = (4800 if tier == "quick" else 200000) // nshards
     sts = gh.status_schedule(tier)      # status lines without / with an unlisted reason phrase, on a fixed schedule
-    nst = nloc = nbody = 0
+    nst = nloc = nbody = ntgt = 0
     for i in range(n):
         r = rng.random()
         role = "wsgi" if r < 0.40 else ("bare" if r < 0.65 else "client")
@@ -96,6 +96,11 @@ def cases(tier, seed, shard, nshards):
             role = "client"
             inp = gh.gen_body_case(shard * ((n + 19) // 20) + nbody)     # malformed / deeply nested JSON and SSE bodies
             nbody += 1
+        elif i % 20 == 5:
+            k = shard * ((n + 19) // 20) + ntgt
+            role = "wsgi" if (k // len(gh.TARGETS)) % 3 < 2 else "bare"
+            inp = gh.gen_target_case(k)                                   # every odd request target, both servers
+            ntgt += 1
         else:
             inp = gh.gen_input(rng, is_request=role != "client", allow_big=(tier == "thorough" or rng.random() < 0.6), force=force)
         total = gh.seglen(inp["segs"])
